@@ -105,6 +105,13 @@ func writeJobSlices(w *bufio.Writer, s *vt.Sched, tag string) int {
 			if fn == "job.Wait" {
 				emit(ev.Owner, ev.Tid, fmt.Sprintf("wait %d", ev.Tid))
 			}
+		case "ad:ack":
+			for k := len(st) - 1; k >= 0; k-- {
+				if st[k].fn == "job.ack" {
+					emit(st[k].recv, ev.Tid, fmt.Sprintf("ack %d %s", ev.Tid, ev.Val))
+					break
+				}
+			}
 		case "q:enq":
 			emit(ev.Obj, ev.Tid, fmt.Sprintf("enq %d %s", ev.Tid, ev.Val))
 		case "q:deq":
